@@ -19,7 +19,7 @@ ID = "C05"
 LEVEL = "exploration"
 RULE = ("hand-written phases of 1-12 statements of all kinds (Assign with 0-2 loops with constant and symbolic "
         "bounds, AssignFunctionCall, YieldState, FailStep, SwitchPhase, Raise, Nop), random acyclic dependencies, "
-        "guards from {True, flag, not flag, not not flag, and(flag, flag'), and(flag, not flag')} over <=4 flags, "
+        "guards from {True, flag, not flag, not not flag, and(flag, flag'), or(flag, flag'), and(flag, not flag')} over <=4 flags, "
         "and comparisons / negated comparisons of a numeric variable with a constant (valuations 0.5, 1, 2, NaN); "
         "each phase is lowered by the real create_ast_from_phase and walked under ALL 2^k flag valuations; "
         "re-lowered from permuted lists, tuples, frozensets and under other PYTHONHASHSEEDs; and pushed through "
